@@ -18,8 +18,7 @@ FLOATS = [0.0, -0.0, 1.5, 0.1, 1e-7, 1e21, 2.0 ** 53, float("inf"), float("nan")
 STRS = [b"", b"a", b"\"", b";", b"\";", b"a\";i:1;", b"}", b"\x00", b"\xff\xfe", "é漢😀".encode(), b"s:1:\"x\";", b" ", b"\n",
         b"0", b"5", b"-1", b"x y", b"__origami_a:[1]"]
 CLAUSES = {1: "model<>impl", 2: "model unserialize<>impl", 3: "unserialize(serialize v) <> v",
-           4: "serialize returns false for the value", 5: "accepted only after trimming white space",
-           6: "accepted only through the legacy s: fallback", 9: "outside the model"}
+           4: "serialize returns false for the value", 9: "outside the model"}
 
 
 def fbits(f):
@@ -85,7 +84,10 @@ def py_ser(v):
             kb = bytes.fromhex(k)
             out += b"s:%d:\"" % len(kb) + kb + b"\";" + py_ser(x)
         return out + b"}"
-    return b"d:0;"
+    if t == "float":
+        f = struct.unpack("<d", struct.pack("<Q", int(v["v"])))[0]
+        return b"d:" + (b"NAN" if f != f else (b"INF" if f == float("inf") else (b"-INF" if f == float("-inf") else repr(f).encode()))) + b";"
+    return b"N;"
 
 
 def mutate(rng, b):
@@ -134,6 +136,9 @@ class Unrepresentable(Exception):
     pass
 
 
+FTEXT = {}      # float bits (decimal string) -> canonical text (bytes), filled from the engine
+
+
 def cvalue(v):
     try:
         return cvalue_(v)
@@ -150,8 +155,10 @@ def cvalue_(v):
     if t == "int":
         return "(VInt %s)" % cz(v["v"])
     if t == "float":
-        b = int(v["v"])
-        return "(VFloat (n64 0x%x 0x%x))" % (b >> 32, b & 0xffffffff)
+        txt = bytes.fromhex(v["ft"]) if "ft" in v else FTEXT.get(v["v"])
+        if txt is None:
+            raise Unrepresentable("float without text")
+        return "(VFloat %s)" % cbytes(txt)
     if t == "str":
         return "(VStr %s)" % cbytes(bytes.fromhex(v["v"]))
     if t == "list":
@@ -171,7 +178,8 @@ def vcode(v):
         z = int(v["v"])
         return bytes([3, 1 if z < 0 else 0]) + abs(z).to_bytes(8, "little")
     if t == "float":
-        return b"\x04" + int(v["v"]).to_bytes(8, "little")
+        txt = bytes.fromhex(v["ft"])
+        return b"\x04" + len(txt).to_bytes(2, "little") + txt
     if t == "str":
         s = bytes.fromhex(v["v"])
         return b"\x05" + len(s).to_bytes(2, "little") + s
@@ -186,6 +194,32 @@ def vcode(v):
     return b"\xfe"
 
 
+def php_view(v):
+    """the PHP value an engine value tree stands for: arrays as ordered (key, value) lists"""
+    t = v["t"]
+    if t == "list":
+        return ["array", [[str(i), php_view(x)] for i, x in enumerate(v["v"])]]
+    if t == "arr":
+        return ["array", [[bytes.fromhex(k).decode("latin1") if k is not None else str(i), php_view(x)]
+                          for i, (k, x) in enumerate(v["v"])]]
+    if t == "map":
+        return ["array", [[bytes.fromhex(k).decode("latin1"), php_view(x)] for k, x in v["v"]]]
+    if t == "float":
+        return ["float", v["v"]]
+    return [t, v.get("v")]
+
+
+def float_bits(v, out):
+    if v["t"] == "float":
+        out.add(v["v"])
+    elif v["t"] == "list":
+        for x in v["v"]:
+            float_bits(x, out)
+    elif v["t"] in ("map", "arr"):
+        for _, x in v["v"]:
+            float_bits(x, out)
+
+
 def run(ck, binary, run_impl, replay):
     rng = ck.rng
     quick = ck.tier == "quick"
@@ -194,11 +228,11 @@ def run(ck, binary, run_impl, replay):
         c = replay["case"]
         if c["k"] == "ser":
             scases = [dict(c, _origin="replay")]
-        else:
+        elif c["k"] == "unser":
             ucases = [dict(c, _origin="replay")]
     else:
         for i in range(900 if quick else 20000):
-            v = gen_value(rng, rng.choice([0, 1, 2, 3, 4]), floats=(i % 10 == 0))
+            v = gen_value(rng, rng.choice([0, 1, 2, 3, 4]), floats=(i % 3 == 0))
             scases.append({"k": "ser", "v": v, "_origin": "float" if has_kind(v, "float") else "tree"})
         for z in INTS:
             scases.append({"k": "ser", "v": {"t": "int", "v": str(z)}, "_origin": "tree"})
@@ -208,8 +242,11 @@ def run(ck, binary, run_impl, replay):
         # ArrayValue slots carrying keys (sparse int keys / string keys stored in ZVal.Name)
         scases.append({"k": "ser", "v": {"t": "arr", "v": [["35", {"t": "int", "v": "1"}], [None, {"t": "int", "v": "2"}]]}, "_origin": "named"})
         scases.append({"k": "ser", "v": {"t": "arr", "v": [["6b", {"t": "int", "v": "1"}]]}, "_origin": "named"})
+        scases.append({"k": "ser", "v": {"t": "arr", "v": [["2d33", {"t": "str", "v": "61"}], ["3037", {"t": "null"}], [None, {"t": "list", "v": []}]]}, "_origin": "named"})
+        for f in FLOATS:
+            scases.append({"k": "ser", "v": {"t": "float", "v": str(fbits(f))}, "_origin": "float"})
         for i in range(700 if quick else 15000):
-            v = gen_value(rng, rng.choice([0, 1, 2, 3, 4]))
+            v = gen_value(rng, rng.choice([0, 1, 2, 3, 4]), floats=(i % 3 == 0))
             t = py_ser(v)
             if len(t) > 4096:
                 continue
@@ -227,7 +264,9 @@ def run(ck, binary, run_impl, replay):
                   b"i:+5;", b"i:-0;", b"i:007;", b"i:9223372036854775808;", b"i:-9223372036854775808;", b"i:-9223372036854775809;",
                   b"i:;", b"i:-;", b"i:5", b"b:2;", b"b:1", b"N", b"N;N;", b" N;", b"N;\n", b"\xc2\xa0N;", b"d:1.5;", b"O:1:\"A\":0:{}",
                   b"s:4:\"a\"b\";", b"s:1:\"a\";junk\"", b"s:\"\"", b"s:20:\"__origami_a:[1,2]\";", b"s:1:\"__origami_a:[1,2]\";",
-                  b"a:1:{a:0:{}N;}", b"a:1:{i:0;N;"):
+                  b"a:1:{a:0:{}N;}", b"a:1:{i:0;N;", b"d:1.5;", b"d:1.50;", b"d:-0;", b"d:1E+25;", b"d:1e400;", b"d:.5;", b"d:5.;",
+                  b"d:;", b"d:.;", b"d:1e;", b"d:+1.5e-3;", b"d:INF;", b"d:-INF;", b"d:NAN;", b"d:inf;", b"d:0x10;", b"d:1_0;", b"d:1.5",
+                  b"d:1.5;x", b"a:2:{i:0;d:0.1;i:1;d:1e3;}", b"d: 1;", b"d:1 ;", b"d:--1;", b"d:1.2.3;", b"d:1e+;", b"d:Infinity;"):
             ucases.append({"k": "unser", "hex": t.hex(), "_origin": "hand"})
         # deep nesting: 400 levels inside 4 KiB
         deep = b"N;"
@@ -242,10 +281,26 @@ def run(ck, binary, run_impl, replay):
         return {k: v for k, v in c.items() if not k.startswith("_")}
 
     ck.log("ser: %d serialize cases, %d unserialize cases, %d exhaustive short inputs" % (len(scases), len(ucases), len(exh)))
-    outs = run_impl(ck, binary, [strip(c) for c in scases + ucases] + exh)
-    if len(outs) != len(scases) + len(ucases) + len(exh):
+    import re
+    fb = set()
+    for c in scases:
+        float_bits(c["v"], fb)
+    fb = sorted(fb)
+    segs = sorted(set(m for c in ucases for m in re.findall(rb"d:([^;]*);", bytes.fromhex(c["hex"]))))
+    aux = [{"k": "ftext", "v": fb}, {"k": "fcanon", "v": [x.hex() for x in segs]}, {"k": "ser.object"}]
+    outs = run_impl(ck, binary, [strip(c) for c in scases + ucases] + exh + aux)
+    if len(outs) != len(scases) + len(ucases) + len(exh) + len(aux):
         ck.broken.append("harness-run:ser")
         return {"evaluations": len(outs), "nontrivial": 0, "traces": 0, "rule": "ser: harness crashed"}
+    o_ft, o_fc, o_obj = outs[-3], outs[-2], outs[-1]
+    outs = outs[:-3]
+    FTEXT.clear()
+    for b, t in zip(fb, o_ft.get("texts", [])):
+        FTEXT[b] = bytes.fromhex(t)
+    canon = {x: bytes.fromhex(t) for x, t in zip(segs, o_fc.get("canon", [])) if t}
+    if not (o_obj.get("out", "").startswith("O:4:\"C14P\":2:{") and o_obj["out"].endswith("|object")):
+        ck.violation("ser:roundtrip:object", {"part": NAME, "case": {"k": "ser.object"}, "impl_out": o_obj,
+                                              "clause": "unserialize(serialize(new C)) must be an object of class C"})
     o_s = outs[:len(scases)]
     o_u = outs[len(scases):len(scases) + len(ucases)]
     o_e = outs[len(scases) + len(ucases):]
@@ -265,7 +320,7 @@ def run(ck, binary, run_impl, replay):
         if cv is None:
             # named ArrayValue slots: outside the model; the round trip is judged here
             back = o.get("back")
-            if back is None or back["t"] != "arr" or json.dumps(back) != json.dumps(c["v"]):
+            if back is None or php_view(back) != php_view(c["v"]):
                 ck.violation("ser:roundtrip:keyed-array-slots", {"part": NAME, "case": strip(c), "impl_out": o, "clause": CLAUSES[3]})
             continue
         out = "None" if "out" not in o else "(Some %s)" % cbytes(bytes.fromhex(o["out"]))
@@ -299,7 +354,9 @@ def run(ck, binary, run_impl, replay):
         if ov is None:
             unmodelled += 1
             continue
-        uterms.append("{| u_in := %s; u_obs := %s |}" % (cbytes(bytes.fromhex(c["hex"])), ov))
+        raw = bytes.fromhex(c["hex"])
+        tab = ["(%s,%s)" % (cbytes(x), cbytes(canon[x])) for x in sorted(set(re.findall(rb"d:([^;]*);", raw))) if x in canon and canon[x] != x]
+        uterms.append("{| u_in := %s; u_ftab := [%s]; u_obs := %s |}" % (cbytes(raw), ";".join(tab), ov))
         uidx.append(i)
     ubad = eval_balanced(ck, "unser", HEADER, uterms, "check_unser")
     for j, cls in sorted(ubad.items(), key=lambda kv: len(ucases[uidx[kv[0]]]["hex"])):
@@ -307,12 +364,7 @@ def run(ck, binary, run_impl, replay):
         if cls == [9]:
             unmodelled += 1
             continue
-        if 1 in cls:
-            key = "unser:clauses=1:%s" % c["_origin"].split(":")[0]
-        elif 5 in cls:
-            key = "unser:accept:surrounding-whitespace"
-        else:
-            key = "unser:accept:legacy-s-fallback"
+        key = "unser:clauses=1:%s" % c["_origin"].split(":")[0]
         ck.violation(key, {"part": NAME, "case": strip(c), "impl_out": o, "clause": [CLAUSES[x] for x in cls]})
     ck.log("ser: coq evaluated")
 
